@@ -50,6 +50,11 @@ def main():
             dc = meta.get("demo_cmd", "")
             m = re.search(r"cp \S+ (\S+)", dc)
             dst = m.group(1) if m else "seeded_demo%s_test.go" % i
+            pre = "/tmp/seedwt/%s/" % ID
+            if dst.startswith(pre):
+                dst = dst[len(pre):]
+            elif dst.startswith("/"):
+                dst = os.path.basename(dst)
             dst = dst.lstrip("./")
             if "/" in dst: demo_pkg = "./" + os.path.dirname(dst)
             run = re.search(r"-run '?\"?([^ '\"]+)", dc)
